@@ -258,7 +258,7 @@ def zero(rep, meta, sfx):
     PE = "pest_meta::parser::ParserExpr"
     found = set()
     for fn in meta.bodies:
-        if fn.get("exp") or not fn["path"].startswith("pest_meta::parser::consume_expr"):
+        if fn.get("exp") or not fn["path"].startswith("pest_meta::parser::") or "::grammar::" in fn["path"]:
             continue
         ctx = hirq.Ctx(fn)
         for x in walk(fn["body"]):
@@ -365,6 +365,7 @@ def visited(rep, meta, sfx):
 
         def rule(self, name, floor, desc):
             return self.t
+    c06.locate(meta)
     c06.trace(R(r), meta, "")
     # rule-following recursions in the optimizer (post-validation): listed as evidence
     for fn in meta.bodies:
